@@ -104,7 +104,7 @@ theorem step_doWork {s : Sys} (h : SInv s) {pid : Nat} {p : Proc} (hp : s.proc? 
       omega
     refine ⟨hpwX.updProc _ _ (by simp), ⟨U, ?_⟩, ?_, ?_⟩
     · have : CI X U := hU.frame (ClQuiet.of_eq hXcl) (by rw [hXtasks]; exact TaskMono.updTask s t f hf)
-        (ObsMono.of_eq hXobs) (fun _ _ => by rw [hXprocs])
+        (ObsMonoS.of_eq hXobs) (fun _ _ => by rw [hXprocs])
       exact this.updProc_neutral hpwX hpX _ hn1 (by simp [PK.isAT, PK.isPI])
     · refine hdg.replaceDW hpw hpm hk _ (by simp) 2 tot' (by simp) (fun _ => ha) X hXcl hXprocs hXnp
         ?_ ?_ ?_ ?_
@@ -151,7 +151,7 @@ theorem step_doWork {s : Sys} (h : SInv s) {pid : Nat} {p : Proc} (hp : s.proc? 
     have hmem := fun q => mem_updProc_iff hpwX (p := p) hpX (fin (.doWork t m preds 3 tot) .done p.wake) q
     refine ⟨hpwX.updProc _ _ (by simp), ⟨U, ?_⟩, ?_, ?_⟩
     · have : CI X U := hU.frame (ClQuiet.of_eq hXcl) (by rw [hXtasks]; exact TaskMono.updTask s t f hf)
-        (ObsMono.of_eq hXobs) (fun _ _ => by rw [hXprocs])
+        (ObsMonoS.of_eq hXobs) (fun _ _ => by rw [hXprocs])
       exact this.updProc_neutral hpwX hpX _ hn1 (by simp [PK.isAT, PK.isPI])
     · refine hdg.replaceDW hpw hpm hk _ (by simp) 3 tot (by simp) (fun h' => by simp at h') X hXcl hXprocs
         hXnp ?_ ?_ ?_ ?_
